@@ -100,4 +100,15 @@ CHECKS = {
                 "three open known findings (exponential signature parser, generated readers, zero-size loops)",
         "technique": "Lean 4 proof (bounds and exactness for all inputs; counter-example witnesses) + regenerated tie lemmas + child-process resource measurement",
     },
+    "C17": {
+        "text": "Lean 4 invariant over all action sequences of the handler-table machine (= all interleavings of the "
+                "critical sections): a handler is in exactly one of table / pending asynchronous close / done; callback and "
+                "queue close ran 0 times for the first two and exactly once for the last; dispatch only touches handlers "
+                "in the table (no send after close); removal of an unknown id is an error and changes nothing; a slot index "
+                "is only handed out when free; after shutdown plus the scheduled closes nothing is left open; the machine "
+                "is tied to endpoint.go by regenerated operation sequences and by exact sequential + racing runs",
+        "note": "trusts the Lean kernel, the flow extractor, Go's mutex/channel semantics as modelled (one critical section = "
+                "one action); re-entrant closers are excluded by the API contract",
+        "technique": "Lean 4 proof (counting invariant by induction over action sequences) + regenerated tie lemmas + exact and racing correspondence runs",
+    },
 }
